@@ -36,6 +36,7 @@ DEFAULT = {
     "nplan": (2, 6),
     "p_stop_bid_mid": 0.0,    # driver stops/aborts a framer mid-run
     "order": False,
+    "benter_all": False,      # a benter recorder first in every frame (attempt log for C08)
     "mark_bids": False,       # a recorder right before every bid: tag "bid|ctl|who|framer"
     "p_bid_period": 0.0,
 }
@@ -100,7 +101,7 @@ def gen_forest(rng, f, prefix, nframes):
 def add_recs(rng, f, framer_name, fr, guarded):
     st = []
     base = "%s.%s" % (framer_name, fr["name"])
-    if guarded:
+    if guarded or f.get("benter_all"):
         st.append(P.rec(base + ".benter", "benter"))
     for c in REC_CTX:
         if rng.random() < f["p_recs_all_ctx"]:
